@@ -12,10 +12,15 @@ package commitlog
 // the REAL logs (read back through uncommitted readers), independently of the model's own
 // monitors, and the two verdicts are compared as well.
 //
-// Cases: the Search witnesses of corpus/C02 and corpus/C04, the witnesses Search finds NOW
-// (it runs on the regenerated guards), and seeded random protocol runs.
+// Cases: the Search witnesses of corpus/C02 and corpus/C04, the GUARD scenarios of
+// corpus/<prop>/guards (runs that must stay safe: ISR re-entry of a replica that is seen but not
+// caught up, a fetch of an earlier term reaching the new leader — the glue evaluates the
+// REGENERATED tick rule / fetch fields / term fence, so a weakened rule turns into a violation on
+// the real logs with the scenario's own tag), the witnesses Search finds NOW (it runs on the
+// regenerated guards), and seeded random protocol runs.
 
 import (
+	"encoding/json"
 	"fmt"
 	"os"
 	"sort"
@@ -382,6 +387,11 @@ func vPKindsOf(prop string, kinds []string) []string {
 
 // vPCorpusFiles returns (name, declared tag, lines) of the corpus entries of a property.
 func vPCorpusFiles(t testing.TB, prop string) (names, tags []string, cases [][]string) {
+	return vPCorpusDir(t, prop)
+}
+
+// vPCorpusDir reads corpus/<sub>/*.ops (sub = "C02", "C02/guards", …).
+func vPCorpusDir(t testing.TB, prop string) (names, tags []string, cases [][]string) {
 	dir := os.Getenv("VERIF_CORPUS")
 	ents, err := os.ReadDir(dir + "/" + prop)
 	if err != nil {
@@ -417,7 +427,7 @@ func vPStepKind(step string) string { return strings.Fields(step)[0] }
 
 // weights of the random walk (per step kind; unknown kinds weigh 0 and are never picked)
 var vPWeight = map[string]int{"pub": 6, "fetch": 8, "serve": 12, "apply": 12, "commit": 8, "next": 10, "offserve": 12, "reconcile": 12,
-	"fail": 2, "elect": 2, "raft": 8, "crash": 1, "restart": 6, "shrink": 2, "expand": 4, "clear": 2, "drop": 1}
+	"fail": 2, "elect": 2, "raft": 8, "crash": 1, "restart": 6, "shrink": 2, "expand": 4, "clear": 2, "unseen": 2, "drop": 1}
 
 // vRunProto is the body of TestVerifC02 / TestVerifC04.
 func vRunProto(t *testing.T, prop string) {
@@ -433,7 +443,10 @@ func vRunProto(t *testing.T, prop string) {
 	run := &vPRun{t: t, model: model}
 	defer run.close()
 
-	// runCase executes one case; declaredTag != "" means a corpus witness that must still fail
+	// runCase executes one case; declaredTag != "" means a corpus witness that must still fail.
+	// guardTag != "": a guard scenario — it must NOT violate (any C02 / C04 kind counts), a violation is
+	// reported under this tag without attribution; steps the model does not enable are skipped.
+	guardTag := ""
 	runCase := func(name string, lines []string, declaredTag string, mustFail bool) {
 		if len(lines) == 0 {
 			return
@@ -474,6 +487,19 @@ func vRunProto(t *testing.T, prop string) {
 				return
 			}
 			mine := vPKindsOf(prop, oc.implViol)
+			if guardTag != "" {
+				mine = oc.implViol
+			}
+			if len(mine) > 0 && !reported && guardTag != "" {
+				reported = true
+				for _, k := range mine {
+					res.Dist("viol:" + k)
+				}
+				res.Dist("tag:" + guardTag)
+				res.Fail(vFailure{Kind: "spec", Case: append([]string(nil), taken...), Impl: oc.trace, Model: oc.modelOut, Tag: guardTag,
+					Detail: fmt.Sprintf("guard scenario %s must stay safe, but after step %q the oracle on the REAL commit logs says %s (the glue evaluates the tick rule, "+
+						"the fetch fields and the term fence regenerated from the source: %s)", name, step, strings.Join(mine, ","), model.Ask1("proto facts"))})
+			}
 			if len(mine) > 0 && !reported {
 				reported = true
 				att := model.Ask1("proto attribute")
@@ -508,6 +534,20 @@ func vRunProto(t *testing.T, prop string) {
 	}
 
 	if rc := vReplayCase(t); rc != nil {
+		// the replay of a guard-scenario failure is judged as a guard scenario (its tag names one)
+		if b, err := os.ReadFile(os.Getenv("VERIF_REPLAY")); err == nil {
+			var f struct {
+				Tag string `json:"tag"`
+			}
+			if json.Unmarshal(b, &f) == nil && f.Tag != "" {
+				_, gtags, _ := vPCorpusDir(t, prop+"/guards")
+				for _, g := range gtags {
+					if g == f.Tag {
+						guardTag = g
+					}
+				}
+			}
+		}
 		runCase("replay", rc, "", false)
 		return
 	}
@@ -527,6 +567,18 @@ func vRunProto(t *testing.T, prop string) {
 		}
 		runCase("corpus/"+prop+"/"+names[i], cases[i], tags[i], true)
 	}
+
+	// (a2) guard scenarios: must stay safe on the real logs with the glue as regenerated now
+	gnames, gtags, gcases := vPCorpusDir(t, prop+"/guards")
+	for i := range gcases {
+		guardTag = gtags[i]
+		if guardTag == "" {
+			guardTag = gnames[i]
+		}
+		res.Dist("guard:" + gnames[i])
+		runCase("corpus/"+prop+"/guards/"+gnames[i], gcases[i], "", false)
+	}
+	guardTag = ""
 
 	// (b) witnesses found now
 	searches := []string{"epoch-start-minus-one-sentinel", "stale-isr-offsets-across-terms", "isr-reentry-stale-caught-up",
